@@ -34,8 +34,58 @@ func c17nUnmarshal(data []byte, v any) error {
 		}
 		*p = f
 		return nil
+	case *[]json.RawMessage:
+		// arrays of numbers and arrays of such arrays, without white space
+		if len(data) < 2 || data[0] != '[' || data[len(data)-1] != ']' {
+			return errors.New("json: cannot unmarshal into array")
+		}
+		*p = nil
+		// (encoding/json's RawMessage elements alias a copy of the input)
+		data = append([]byte(nil), data...)
+		for _, part := range c17nSplit(data[1 : len(data)-1]) {
+			*p = append(*p, json.RawMessage(part))
+		}
+		return nil
+	case *map[string]json.RawMessage:
+		// objects with plain one-letter keys
+		if len(data) < 2 || data[0] != '{' || data[len(data)-1] != '}' {
+			return errors.New("json: cannot unmarshal into object")
+		}
+		*p = map[string]json.RawMessage{}
+		data = append([]byte(nil), data...)
+		for _, part := range c17nSplit(data[1 : len(data)-1]) {
+			if len(part) < 5 || part[0] != '"' || part[2] != '"' || part[3] != ':' {
+				panic("json model: one-letter keys only")
+			}
+			(*p)[string(part[1:2])] = json.RawMessage(part[4:])
+		}
+		return nil
 	}
-	panic("json model: numbers only")
+	panic("json model: numbers and containers of numbers only")
+}
+
+// c17nSplit cuts at the commas which are not inside brackets; the parts alias
+// its argument.
+func c17nSplit(b []byte) [][]byte {
+	var parts [][]byte
+	depth, start := 0, 0
+	for i, c := range b {
+		switch c {
+		case '[', '{':
+			depth++
+		case ']', '}':
+			depth--
+		case ',':
+			if depth == 0 {
+				parts = append(parts, b[start:i])
+				start = i + 1
+			}
+		}
+	}
+	if start < len(b) {
+		parts = append(parts, b[start:])
+	}
+	return parts
 }
 
 //verif:stub encoding/json.Marshal
@@ -45,6 +95,8 @@ func c17nMarshal(v any) ([]byte, error) {
 		return strconv.AppendInt(nil, *p, 10), nil
 	case int64:
 		return strconv.AppendInt(nil, p, 10), nil
+	case string:
+		return []byte(`"` + p + `"`), nil
 	}
 	panic("json model: numbers only")
 }
@@ -87,4 +139,75 @@ func H_C17_intLiterals(i int) {
 	if want != "" {
 		verifAssert(string(f) == want || string(f) == lit && lit == want, "C17: filtering a number to int writes the same integer (integral floats as that integer), it never changes the value")
 	}
+}
+
+// integral floats whose integer text is as long as the float text, next to
+// ordinary spellings
+var c17SameLength = [][2]string{
+	{"1e2", "100"}, {"1E2", "100"}, {"-1e2", "-100"}, {"15e2", "1500"}, {"1.0e4", "10000"},
+	{"1.0", "1"}, {"1e3", "1000"}, {"7", "7"}, {"120e-1", "12"},
+}
+
+const c17nSrc = `
+struct S(
+    int a,
+)
+
+stage T(
+    in  int[]    xs,
+    in  map<int> m,
+    in  S        s,
+    in  int[][]  g,
+    out int      r,
+    src comp     "t",
+)
+`
+
+// H_C17_intContainers(i, shape): an integral float at an int position inside
+// an array, a typed map, a struct, a two-dimensional array, or next to a
+// sibling which does not change.
+//
+//	C17: filtering writes the integer at every depth (the result is not the
+//	     unchanged input), is idempotent, and does not modify the caller's
+//	     buffer.
+func H_C17_intContainers(i, shape int) {
+	lit, want := c17SameLength[i][0], c17SameLength[i][1]
+	var parser Parser
+	ast, err := parser.UncheckedParse([]byte(c17nSrc), "/m/n.mro")
+	if err == nil {
+		err = ast.compile()
+	}
+	if err != nil {
+		panic("fixture does not compile: " + err.Error())
+	}
+	lookup := &ast.TypeTable
+	stage := ast.Callables.Table["T"]
+	param := []string{"xs", "m", "s", "g", "xs"}[shape]
+	t := lookup.Get(stage.GetInParams().Table[param].Tname)
+	wrap := func(v string) string {
+		switch shape {
+		case 0:
+			return "[" + v + "]"
+		case 1:
+			return `{"k":` + v + `}`
+		case 2:
+			return `{"a":` + v + `}`
+		case 3:
+			return "[[" + v + "],[]]"
+		}
+		return "[" + v + ",5]"
+	}
+	in := []byte(wrap(lit))
+	keep := string(in)
+	out, fatal, _ := t.FilterJson(json.RawMessage(in), lookup)
+	verifCover("integral float filtered inside a container")
+	verifAssert(!fatal, "C17: an integral float is a valid int at any depth")
+	if fatal {
+		return
+	}
+	got := string(out)
+	verifAssert(got == wrap(want), "C17: filtering writes an integral float as the integer it denotes at every depth of arrays, typed maps and structs")
+	verifAssert(string(in) == keep, "C17: filtering does not modify the value it was given")
+	again, fatal2, _ := t.FilterJson(json.RawMessage([]byte(got)), lookup)
+	verifAssert(!fatal2 && string(again) == got, "C17: filtering is idempotent")
 }
